@@ -1,10 +1,26 @@
 package main
 
 import (
+	"bufio"
+	"fmt"
+	"hash/fnv"
+	"io"
+	"math/rand"
 	"os"
+	"os/exec"
 	"path/filepath"
+	"runtime"
+	"sort"
+	"strconv"
+	"strings"
+	"sync"
+	"sync/atomic"
+	"time"
+
+	"github.com/rogpeppe/go-internal/par"
 
 	"verif/harness/internal/corr"
+	"verif/harness/internal/mdl"
 	"verif/harness/internal/shimkit"
 )
 
@@ -28,6 +44,1221 @@ func buildShim() (*shimkit.Built, error) {
 		DriverDir: filepath.Join(h, "shimcmd", "par"), VshimDir: filepath.Join(h, "vshim")})
 }
 
+// ---------------------------------------------------------------- shim process
+
+type shimProc struct {
+	cmd *exec.Cmd
+	in  *bufio.Writer
+	wc  io.WriteCloser
+	out *bufio.Reader
+}
+
+func startShim(bin string) (*shimProc, error) {
+	cmd := exec.Command(bin)
+	wc, err := cmd.StdinPipe()
+	if err != nil {
+		return nil, err
+	}
+	rc, err := cmd.StdoutPipe()
+	if err != nil {
+		return nil, err
+	}
+	cmd.Stderr = os.Stderr
+	if err := cmd.Start(); err != nil {
+		return nil, err
+	}
+	return &shimProc{cmd: cmd, in: bufio.NewWriter(wc), wc: wc, out: bufio.NewReaderSize(rc, 1<<20)}, nil
+}
+
+func (p *shimProc) close() {
+	p.wc.Close()
+	p.cmd.Wait()
+}
+
+// request sends one request line and returns the TRACE lines it produced and, for dfs, the status.
+func (p *shimProc) request(line string) (traces []string, status string, err error) {
+	p.in.WriteString(line + "\n")
+	if err := p.in.Flush(); err != nil {
+		return nil, "", err
+	}
+	dfs := strings.HasPrefix(line, "dfs ")
+	for {
+		l, err := p.out.ReadString('\n')
+		if err != nil {
+			return traces, "", fmt.Errorf("instrumented driver died: %v", err)
+		}
+		l = strings.TrimRight(l, "\n")
+		switch {
+		case strings.HasPrefix(l, "DFSEND "):
+			return traces, l, nil
+		case strings.HasPrefix(l, "TRACE "):
+			traces = append(traces, l)
+			if !dfs {
+				return traces, "", nil
+			}
+		default:
+			if !dfs {
+				return nil, "", fmt.Errorf("instrumented driver answered %q to %q", l, line)
+			}
+			traces = append(traces, l)
+		}
+	}
+}
+
+// ---------------------------------------------------------------- scenarios
+
+// A scenario is the request without its schedule: `work n init graph` or `cache prog`.
+type scenario struct {
+	kind  string // work | cache
+	text  string // as sent to the instrumented driver
+	label string // generator family, for the distribution
+	// work
+	n        int
+	init     []string
+	children map[string][]string
+	// cache
+	prog [][]string
+}
+
+func workScenario(label string, n int, init string, graph string) scenario {
+	sc := scenario{kind: "work", label: label, n: n, children: map[string][]string{}}
+	if init != "-" && init != "" {
+		sc.init = strings.Split(init, ",")
+	} else {
+		init = "-"
+	}
+	if graph != "-" && graph != "" {
+		for _, part := range strings.Split(graph, ";") {
+			kv := strings.SplitN(part, ">", 2)
+			if len(kv) == 2 && kv[1] != "" {
+				sc.children[kv[0]] = strings.Split(kv[1], ",")
+			}
+		}
+	} else {
+		graph = "-"
+	}
+	sc.text = fmt.Sprintf("work %d %s %s", n, init, graph)
+	return sc
+}
+
+func cacheScenario(label, prog string) scenario {
+	sc := scenario{kind: "cache", label: label, text: "cache " + prog}
+	for _, g := range strings.Split(prog, "|") {
+		var ops []string
+		for _, op := range strings.Split(g, ";") {
+			if op != "" && op != "-" {
+				ops = append(ops, op)
+			}
+		}
+		sc.prog = append(sc.prog, ops)
+	}
+	return sc
+}
+
+func parseScenario(text string) (scenario, string, bool) {
+	f := strings.Fields(text)
+	switch {
+	case len(f) >= 4 && f[0] == "work":
+		n, err := strconv.Atoi(f[1])
+		if err != nil {
+			return scenario{}, "", false
+		}
+		sched := ""
+		if len(f) >= 5 {
+			sched = f[4]
+		}
+		return workScenario("replay", n, f[2], f[3]), sched, true
+	case len(f) >= 2 && f[0] == "cache":
+		sched := ""
+		if len(f) >= 3 {
+			sched = f[2]
+		}
+		return cacheScenario("replay", f[1]), sched, true
+	}
+	return scenario{}, "", false
+}
+
+// item graphs of at most 4 items for the exhaustive part
+var smallGraphs = [][3]string{
+	{"empty", "-", "-"},
+	{"single", "0", "-"},
+	{"two", "0,1", "-"},
+	{"chain", "0", "0>1;1>2;2>3"},
+	{"fanout", "0", "0>1,2,3"},
+	{"diamond", "0", "0>1,2;1>3;2>3"},
+	{"selfloop", "0", "0>0"},
+	{"cycle", "0", "0>1;1>0"},
+	{"dupadds", "0,0,1", "0>1,1;1>0"},
+	{"join", "0,1", "0>2;1>2;2>3"},
+	{"chain2", "0", "0>1;1>2"},
+	{"fan2", "0", "0>1,2"},
+}
+
+var smallCaches = [][2]string{
+	{"do-do", "d0|d0"},
+	{"do-get", "d0|g0"},
+	{"do-do-do", "d0|d0|d0"},
+	{"do-do-get", "d0|d0|g0"},
+	{"doget-doget", "d0;g0|g0;d0"},
+	{"do2-get2", "d0;d0|g0;g0"},
+	{"twokeys", "d0;d1|d1;d0"},
+	{"twokeys-get", "d0;g1|d1;g0"},
+	{"get-get", "g0|g0"},
+	{"three-two", "d0|d1;d0|g0;g1"},
+	{"four", "d0|d0|g0|d0"},
+	{"four-two", "d0|d1|g0;d1|g1;d0"},
+}
+
+func randWork(r *rand.Rand, maxN, maxItems int) scenario {
+	n := 1 + r.Intn(maxN)
+	items := 1 + r.Intn(maxItems)
+	var init []string
+	for i, k := 0, 1+r.Intn(3); i < k; i++ {
+		init = append(init, strconv.Itoa(r.Intn(items)))
+	}
+	if r.Intn(12) == 0 {
+		init = nil
+	}
+	var parts []string
+	for x := 0; x < items; x++ {
+		k := r.Intn(4)
+		if r.Intn(3) == 0 {
+			k = 0
+		}
+		var cs []string
+		for i := 0; i < k; i++ {
+			switch r.Intn(4) {
+			case 0:
+				cs = append(cs, strconv.Itoa(r.Intn(items))) // anywhere (cycles, duplicates)
+			default:
+				cs = append(cs, strconv.Itoa(min(items-1, x+1+r.Intn(3)))) // forward
+			}
+		}
+		if len(cs) > 0 {
+			parts = append(parts, fmt.Sprintf("%d>%s", x, strings.Join(cs, ",")))
+		}
+	}
+	in, gr := "-", "-"
+	if len(init) > 0 {
+		in = strings.Join(init, ",")
+	}
+	if len(parts) > 0 {
+		gr = strings.Join(parts, ";")
+	}
+	return workScenario("random", n, in, gr)
+}
+
+func randCache(r *rand.Rand) scenario {
+	g := 2 + r.Intn(3)
+	keys := 1 + r.Intn(2)
+	var gs []string
+	for i := 0; i < g; i++ {
+		var ops []string
+		for j, k := 0, 1+r.Intn(3); j < k; j++ {
+			op := "d"
+			if r.Intn(3) == 0 {
+				op = "g"
+			}
+			ops = append(ops, op+strconv.Itoa(r.Intn(keys)))
+		}
+		gs = append(gs, strings.Join(ops, ";"))
+	}
+	return cacheScenario("random", strings.Join(gs, "|"))
+}
+
+// ---------------------------------------------------------------- trace parsing
+
+type event struct {
+	task int
+	op   string
+	args []string
+	res  string
+}
+
+func parseTrace(line string) (evs []event, end string, choices string, err error) {
+	if !strings.HasPrefix(line, "TRACE ") {
+		return nil, "", "", fmt.Errorf("not a trace: %.80q", line)
+	}
+	body := strings.TrimPrefix(line, "TRACE ")
+	i := strings.LastIndex(body, " END ")
+	if i < 0 {
+		return nil, "", "", fmt.Errorf("trace without END")
+	}
+	tail := strings.Fields(body[i+5:])
+	body = body[:i]
+	if len(tail) >= 1 {
+		end = tail[0]
+	}
+	if len(tail) >= 3 && tail[1] == "CH" {
+		choices = tail[2]
+	}
+	if body == "" {
+		return nil, end, choices, nil
+	}
+	for _, es := range strings.Split(body, "|") {
+		f := strings.Fields(es)
+		if len(f) < 3 || !strings.HasPrefix(f[1], "t") {
+			return nil, "", "", fmt.Errorf("bad event %q", es)
+		}
+		t, err := strconv.Atoi(f[1][1:])
+		if err != nil {
+			return nil, "", "", fmt.Errorf("bad event %q", es)
+		}
+		e := event{task: t, op: f[2]}
+		rest := f[3:]
+		for j, a := range rest {
+			if a == "->" {
+				e.res = strings.Join(rest[j+1:], " ")
+				rest = rest[:j]
+				break
+			}
+		}
+		e.args = rest
+		evs = append(evs, e)
+	}
+	return evs, end, choices, nil
+}
+
+func arg(e event, i int) string {
+	if i < len(e.args) {
+		return e.args[i]
+	}
+	return ""
+}
+
+// ---------------------------------------------------------------- analysis of one trace
+
+type analysis struct {
+	modelLine  string      // request for the Lean driver
+	expect     [][2]string // fields the model's final summary must show
+	violations [][2]string // (class, what) found by the independent oracle
+	badTrace   string      // the trace could not be translated (counts as a disagreement)
+	tasks      int         // tasks that took a step
+	switches   int
+	events     int
+	end        string
+}
+
+func (a *analysis) violate(class, what string) {
+	a.violations = append(a.violations, [2]string{class, what})
+}
+
+func taskID(s string) (int, bool) {
+	if !strings.HasPrefix(s, "t") {
+		return 0, false
+	}
+	v, err := strconv.Atoi(s[1:])
+	return v, err == nil
+}
+
+// closure of the initial items under children
+func closure(sc scenario) map[string]bool {
+	seen := map[string]bool{}
+	todo := append([]string{}, sc.init...)
+	for len(todo) > 0 {
+		x := todo[len(todo)-1]
+		todo = todo[:len(todo)-1]
+		if seen[x] {
+			continue
+		}
+		seen[x] = true
+		todo = append(todo, sc.children[x]...)
+	}
+	return seen
+}
+
+func analyseWork(sc scenario, evs []event, end string) *analysis {
+	a := &analysis{end: end}
+	var out []string
+	// ---- oracle state (from the trace and the scenario only)
+	inF := map[int]string{}     // task -> item it is running f on
+	entered := map[string]int{} // item -> number of f-enter
+	exited := map[string]int{}
+	var callOrder []string
+	doReturned := false
+	mutexHeld := false
+	seenTask := map[int]bool{}
+	last := -1
+	all := closure(sc)
+	for _, e := range evs {
+		if e.op == "B" {
+			out = append(out, "0:B:"+arg(e, 0))
+			continue
+		}
+		a.events++
+		if !seenTask[e.task] {
+			seenTask[e.task] = true
+		}
+		if last >= 0 && last != e.task {
+			a.switches++
+		}
+		last = e.task
+		t := strconv.Itoa(e.task)
+		bad := func() *analysis {
+			a.badTrace = fmt.Sprintf("untranslatable event: t%d %s %v -> %s", e.task, e.op, e.args, e.res)
+			return a
+		}
+		switch e.op {
+		case "start", "exit":
+			out = append(out, t+":"+e.op)
+		case "panic":
+			out = append(out, t+":panic")
+			a.violate("panic", "a task panicked: "+strings.Join(e.args, " "))
+		case "lock", "unlock":
+			if arg(e, 0) != "m0" {
+				return bad()
+			}
+			if e.op == "lock" {
+				if mutexHeld {
+					a.violate("mutex-exclusion", "lock granted while the mutex is held")
+				}
+				mutexHeld = true
+			} else {
+				mutexHeld = false
+			}
+			out = append(out, t+":"+e.op)
+		case "wait", "wake":
+			if arg(e, 0) != "c0" || arg(e, 1) != "m0" {
+				return bad()
+			}
+			if e.op == "wake" {
+				if mutexHeld {
+					a.violate("mutex-exclusion", "wake-up re-acquired the mutex while it is held")
+				}
+				mutexHeld = true
+			} else {
+				mutexHeld = false
+			}
+			out = append(out, t+":"+e.op)
+		case "signal":
+			if arg(e, 0) != "c0" {
+				return bad()
+			}
+			if e.res == "none" {
+				out = append(out, t+":sig:-")
+			} else if w, ok := taskID(e.res); ok {
+				out = append(out, fmt.Sprintf("%s:sig:%d", t, w))
+			} else {
+				return bad()
+			}
+		case "broadcast":
+			if arg(e, 0) != "c0" {
+				return bad()
+			}
+			out = append(out, t+":bc:"+e.res)
+		case "rand":
+			out = append(out, t+":rand:"+arg(e, 0)+":"+e.res)
+		case "f-enter":
+			x := arg(e, 0)
+			out = append(out, t+":fe:"+x)
+			entered[x]++
+			callOrder = append(callOrder, x)
+			if entered[x] > 1 {
+				a.violate("f-twice", "f called twice for item "+x)
+			}
+			if !all[x] {
+				a.violate("f-not-added", "f called for item "+x+" which was never added")
+			}
+			if _, ok := inF[e.task]; ok {
+				a.violate("f-nested", "f entered while the same task is inside f")
+			}
+			inF[e.task] = x
+			if len(inF) > sc.n {
+				a.violate("too-many-concurrent", fmt.Sprintf("%d calls of f in progress with n=%d", len(inF), sc.n))
+			}
+			if doReturned {
+				a.violate("f-after-return", "f called for "+x+" after Do returned")
+			}
+		case "f-exit":
+			x := arg(e, 0)
+			out = append(out, t+":fx:"+x)
+			if inF[e.task] != x {
+				a.violate("f-exit-mismatch", "f-exit "+x+" without matching f-enter")
+			}
+			delete(inF, e.task)
+			exited[x]++
+			if doReturned {
+				a.violate("f-after-return", "f("+x+") still running when Do returned")
+			}
+		case "do-call":
+			out = append(out, t+":dc:"+arg(e, 0))
+		case "do-return":
+			out = append(out, t+":dr")
+			doReturned = true
+			if len(inF) > 0 {
+				a.violate("early-return", fmt.Sprintf("Do returned while %d calls of f are in flight", len(inF)))
+			}
+			for x := range all {
+				if exited[x] == 0 {
+					a.violate("early-return", "Do returned but item "+x+" (added) has not been processed")
+					break
+				}
+			}
+		case "go":
+			w, ok := taskID(arg(e, 0))
+			if !ok {
+				return bad()
+			}
+			out = append(out, fmt.Sprintf("%s:go:%d", t, w))
+		default:
+			return bad()
+		}
+	}
+	a.tasks = len(seenTask)
+	switch end {
+	case "deadlock":
+		a.violate("deadlock", "the scheduler found no enabled task (deadlock / lost wake-up)")
+	case "aborted":
+		a.violate("no-termination", "step limit reached")
+	case "done":
+		if sc.n >= 1 {
+			if !doReturned {
+				a.violate("no-return", "all tasks finished but Do did not return")
+			}
+			for x := range all {
+				if entered[x] != 1 || exited[x] != 1 {
+					a.violate("not-exactly-once", fmt.Sprintf("item %s: f entered %d times, completed %d times", x, entered[x], exited[x]))
+					break
+				}
+			}
+			if len(seenTask) != sc.n {
+				a.violate("worker-count", fmt.Sprintf("%d tasks ran, n = %d", len(seenTask), sc.n))
+			}
+		}
+	}
+	in, gr := "-", "-"
+	f := strings.Fields(sc.text)
+	in, gr = f[2], f[3]
+	ev := "-"
+	if len(out) > 0 {
+		ev = strings.Join(out, "|")
+	}
+	a.modelLine = fmt.Sprintf("work %d %s %s %s", sc.n, in, gr, ev)
+	// ---- what the model's final state must say
+	if end == "done" {
+		a.expect = append(a.expect, [2]string{"final", "true"}, [2]string{"enabled", "-"}, [2]string{"todo", "-"}, [2]string{"insideF", "-"}, [2]string{"owner", "-"})
+		if sc.n >= 1 {
+			a.expect = append(a.expect, [2]string{"waiting", strconv.Itoa(sc.n)}, [2]string{"running", strconv.Itoa(sc.n)})
+		}
+	} else if end == "deadlock" {
+		a.expect = append(a.expect, [2]string{"final", "false"}, [2]string{"enabled", "-"})
+	}
+	co := "-"
+	if len(callOrder) > 0 {
+		co = strings.Join(callOrder, ",")
+	}
+	a.expect = append(a.expect, [2]string{"calls", co})
+	if end == "done" && sc.n >= 1 {
+		var names []string
+		for x := range all {
+			names = append(names, x)
+		}
+		a.expect = append(a.expect, [2]string{"added-set", sortedNums(names)})
+	}
+	return a
+}
+
+func sortedNums(names []string) string {
+	var v []int
+	for _, s := range names {
+		n, _ := strconv.Atoi(s)
+		v = append(v, n)
+	}
+	sort.Ints(v)
+	if len(v) == 0 {
+		return "-"
+	}
+	parts := make([]string, len(v))
+	for i, n := range v {
+		parts[i] = strconv.Itoa(n)
+	}
+	return strings.Join(parts, ",")
+}
+
+func encVal(v string) (string, bool) {
+	if v == "<nil>" {
+		return "nil", true
+	}
+	kv := strings.SplitN(v, "#", 2)
+	if len(kv) != 2 {
+		return "", false
+	}
+	if _, err := strconv.Atoi(kv[0]); err != nil {
+		return "", false
+	}
+	if _, err := strconv.Atoi(kv[1]); err != nil {
+		return "", false
+	}
+	return kv[0] + "." + kv[1], true
+}
+
+func analyseCache(sc scenario, evs []event, end string) *analysis {
+	a := &analysis{end: end}
+	var out []string
+	curKey := map[int]string{} // task -> key of the call in progress
+	inGet := map[int]bool{}
+	objKey := map[string]string{} // a0 / m0 -> key
+	keyObj := map[string]string{} // "a:"+key -> a0
+	fEntered := map[string]int{}
+	fValue := map[string]string{} // key -> value returned by the completed f
+	stored := map[string]bool{}   // atomic.store seen
+	held := map[string]bool{}
+	seenTask := map[int]bool{}
+	last := -1
+	bind := func(kind, obj, key string) bool {
+		if k, ok := objKey[obj]; ok && k != key {
+			a.violate("entry-shared", fmt.Sprintf("%s is used for keys %s and %s", obj, k, key))
+			return false
+		}
+		if o, ok := keyObj[kind+key]; ok && o != obj {
+			a.violate("two-entries", fmt.Sprintf("key %s uses two entries (%s and %s)", key, o, obj))
+			return false
+		}
+		objKey[obj] = key
+		keyObj[kind+key] = obj
+		return true
+	}
+	for _, e := range evs {
+		if e.op == "B" {
+			out = append(out, "0:B:"+arg(e, 0))
+			if arg(e, 0) != "-" {
+				for _, id := range strings.Split(arg(e, 0), ".") {
+					n, _ := strconv.Atoi(id)
+					if inGet[n] {
+						a.violate("get-blocked", fmt.Sprintf("task %d is blocked inside Get", n))
+					}
+				}
+			}
+			continue
+		}
+		a.events++
+		seenTask[e.task] = true
+		if last >= 0 && last != e.task {
+			a.switches++
+		}
+		last = e.task
+		t := strconv.Itoa(e.task)
+		bad := func() *analysis {
+			a.badTrace = fmt.Sprintf("untranslatable event: t%d %s %v -> %s", e.task, e.op, e.args, e.res)
+			return a
+		}
+		key := curKey[e.task]
+		switch e.op {
+		case "start", "exit":
+			out = append(out, t+":"+e.op)
+		case "panic":
+			a.violate("panic", "a task panicked: "+strings.Join(e.args, " "))
+			return bad()
+		case "do-call", "get-call":
+			curKey[e.task] = arg(e, 0)
+			inGet[e.task] = e.op == "get-call"
+			out = append(out, t+":"+map[string]string{"do-call": "dc", "get-call": "gc"}[e.op]+":"+arg(e, 0))
+		case "do-return", "get-return":
+			v, ok := encVal(strings.Join(e.args[1:], " "))
+			if !ok || arg(e, 0) != key {
+				return bad()
+			}
+			raw := strings.Join(e.args[1:], " ")
+			if e.op == "do-return" {
+				fv, done := fValue[key]
+				switch {
+				case !done:
+					a.violate("do-early", "Do("+key+") returned before the call of f completed")
+				case raw != fv:
+					a.violate("do-wrong-value", "Do("+key+") returned "+raw+", f returned "+fv)
+				case !stored[key]:
+					a.violate("do-unpublished", "Do("+key+") returned before done was set")
+				}
+				out = append(out, t+":dr:"+key+":"+v)
+			} else {
+				if raw != "<nil>" {
+					fv, done := fValue[key]
+					if !done || raw != fv {
+						a.violate("get-wrong-value", "Get("+key+") returned "+raw+" which is neither nil nor the value of f ("+fv+")")
+					} else if !stored[key] {
+						a.violate("get-unpublished", "Get("+key+") returned a value before done was set")
+					}
+				}
+				out = append(out, t+":gr:"+key+":"+v)
+			}
+			delete(curKey, e.task)
+			inGet[e.task] = false
+		case "map.load", "map.loadOrStore":
+			if arg(e, 0) != "M0" || arg(e, 1) != key {
+				return bad()
+			}
+			op := map[string]string{"map.load": "ml", "map.loadOrStore": "mls"}[e.op]
+			out = append(out, t+":"+op+":"+key+":"+e.res)
+		case "atomic.load":
+			if !bind("a:", arg(e, 0), key) {
+				return bad()
+			}
+			out = append(out, t+":al:"+key+":"+e.res)
+		case "atomic.store":
+			if !bind("a:", arg(e, 0), key) {
+				return bad()
+			}
+			if _, ok := fValue[key]; !ok {
+				a.violate("store-before-result", "done set for key "+key+" before f returned")
+			}
+			stored[key] = true
+			out = append(out, t+":as:"+key+":"+arg(e, 1))
+		case "lock", "unlock":
+			if !bind("m:", arg(e, 0), key) {
+				return bad()
+			}
+			if inGet[e.task] {
+				a.violate("get-locks", "Get("+key+") takes the entry mutex")
+			}
+			if e.op == "lock" {
+				if held[key] {
+					a.violate("mutex-exclusion", "lock granted while the mutex is held")
+				}
+				held[key] = true
+			} else {
+				held[key] = false
+			}
+			out = append(out, t+":"+e.op+":"+key)
+		case "f-enter":
+			if arg(e, 0) != key {
+				return bad()
+			}
+			fEntered[key]++
+			if fEntered[key] > 1 {
+				a.violate("f-twice", "f invoked twice for key "+key)
+			}
+			out = append(out, t+":fe:"+key)
+		case "f-exit":
+			v, ok := encVal(arg(e, 1))
+			if !ok || v == "nil" || arg(e, 0) != key {
+				return bad()
+			}
+			fValue[key] = arg(e, 1)
+			out = append(out, t+":fx:"+key+":"+v)
+		default:
+			return bad()
+		}
+	}
+	a.tasks = len(seenTask)
+	switch end {
+	case "deadlock":
+		a.violate("deadlock", "the scheduler found no enabled task")
+	case "aborted":
+		a.violate("no-termination", "step limit reached")
+	}
+	ev := "-"
+	if len(out) > 0 {
+		ev = strings.Join(out, "|")
+	}
+	a.modelLine = "cache " + strings.TrimPrefix(sc.text, "cache ") + " " + ev
+	if end == "done" {
+		a.expect = append(a.expect, [2]string{"final", "true"}, [2]string{"enabled", "-"})
+		// per key summary
+		keys := map[string]bool{}
+		doKeys := map[string]bool{}
+		for _, g := range sc.prog {
+			for _, op := range g {
+				keys[op[1:]] = true
+				if op[0] == 'd' {
+					doKeys[op[1:]] = true
+				}
+			}
+		}
+		var ks []string
+		for k := range keys {
+			ks = append(ks, k)
+		}
+		sort.Slice(ks, func(i, j int) bool { a, _ := strconv.Atoi(ks[i]); b, _ := strconv.Atoi(ks[j]); return a < b })
+		var parts []string
+		for _, k := range ks {
+			if doKeys[k] {
+				v, _ := encVal(fValue[k])
+				parts = append(parts, fmt.Sprintf("%s:alloc=true,done=1,owner=-,result=%s,fcalls=%d,fret=%s", k, v, fEntered[k], v))
+			} else {
+				parts = append(parts, fmt.Sprintf("%s:alloc=false,done=0,owner=-,result=nil,fcalls=0,fret=nil", k))
+			}
+		}
+		a.expect = append(a.expect, [2]string{"keys", strings.Join(parts, ";")})
+		for k := range doKeys {
+			if fEntered[k] != 1 {
+				a.violate("not-exactly-once", fmt.Sprintf("key %s: f invoked %d times although Do(%s) was called", k, fEntered[k], k))
+			}
+		}
+	}
+	return a
+}
+
+func analyse(sc scenario, line string) *analysis {
+	evs, end, _, err := parseTrace(line)
+	if err != nil {
+		return &analysis{badTrace: err.Error()}
+	}
+	if sc.kind == "work" {
+		return analyseWork(sc, evs, end)
+	}
+	return analyseCache(sc, evs, end)
+}
+
+// checkModel compares the model's answer with what the trace implies.
+func checkModel(a *analysis, answer string) string {
+	if !strings.HasPrefix(answer, "ok ") {
+		return answer
+	}
+	fields := map[string]string{}
+	for _, f := range strings.Fields(answer[3:]) {
+		kv := strings.SplitN(f, "=", 2)
+		if len(kv) == 2 {
+			fields[kv[0]] = kv[1]
+		}
+	}
+	if ad, ok := fields["added"]; ok {
+		if ad == "-" {
+			fields["added-set"] = "-"
+		} else {
+			fields["added-set"] = sortedNums(strings.Split(ad, ","))
+		}
+	}
+	for _, kv := range a.expect {
+		if fields[kv[0]] != kv[1] {
+			return fmt.Sprintf("model final state has %s=%s, the trace implies %s (model: %s)", kv[0], fields[kv[0]], kv[1], answer)
+		}
+	}
+	return ""
+}
+
+// ---------------------------------------------------------------- the run
+
+type job struct {
+	sc         scenario
+	request    string // full request line for the instrumented driver
+	dfs        bool
+	exhaustive bool
+}
+
+type jobResult struct {
+	traces []string
+	status string
+	err    error
+}
+
+func propOf(sc scenario) string {
+	if sc.kind == "work" {
+		return "C09"
+	}
+	return "C10"
+}
+
+func hash64(s string) uint64 {
+	h := fnv.New64a()
+	h.Write([]byte(s))
+	return h.Sum64()
+}
+
 func runPar(tier string, seed int64, model string, replay string) *corr.Result {
-	return corr.NewResult("par", tier, seed)
+	res := corr.NewResult("par", tier, seed)
+	r := rand.New(rand.NewSource(seed))
+	search := os.Getenv("VERIF_SEARCH") != ""
+
+	b, err := buildShim()
+	if err != nil {
+		res.Observations = append(res.Observations, "cannot build the instrumented driver: "+err.Error())
+		res.Disagree("<shim-build>", err.Error(), "")
+		return res
+	}
+	defer b.Cleanup()
+
+	var jobs []job
+	if replay != "" {
+		sc, sched, ok := parseScenario(replay)
+		if !ok || sched == "" {
+			res.Disagree(replay, "unparsable replay case", "")
+			return res
+		}
+		jobs = append(jobs, job{sc: sc, request: sc.text + " " + sched})
+	} else {
+		thorough := tier == "thorough"
+		// ---- exhaustive part: DFS over scheduler and rand.Intn choices, preemption bounded
+		type plan struct {
+			n, bound, max int
+			exhaustive    bool // meant to be complete (a truncation is reported)
+		}
+		plans := []plan{{1, 2, 100000, true}, {2, 2, 100000, true}, {3, 1, 100000, true}, {3, 2, 2500, false}, {4, 1, 2500, false}}
+		if thorough {
+			plans = []plan{{1, 3, 200000, true}, {2, 3, 200000, true}, {3, 2, 200000, true}, {4, 1, 200000, true}, {4, 2, 20000, false}}
+		}
+		for _, g := range smallGraphs {
+			for _, pl := range plans {
+				sc := workScenario(g[0], pl.n, g[1], g[2])
+				jobs = append(jobs, job{sc: sc, request: fmt.Sprintf("dfs %d %d %s", pl.bound, pl.max, sc.text), dfs: true, exhaustive: pl.exhaustive})
+			}
+		}
+		for _, g := range smallCaches {
+			sc := cacheScenario(g[0], g[1])
+			bound := 2
+			if len(sc.prog) >= 4 {
+				bound = 1
+			}
+			if thorough {
+				bound++
+			}
+			jobs = append(jobs, job{sc: sc, request: fmt.Sprintf("dfs %d %d %s", bound, 400000, sc.text), dfs: true, exhaustive: true})
+		}
+		// ---- seeded random schedules on the small scenarios (unbounded preemptions)
+		nSmall, nRandW, nRandC := 40, 2500, 2500
+		if thorough {
+			nSmall, nRandW, nRandC = 400, 40000, 30000
+		}
+		if search {
+			nRandW *= 2
+			nRandC *= 2
+		}
+		for _, g := range smallGraphs {
+			for n := 1; n <= 4; n++ {
+				sc := workScenario(g[0]+"-rnd", n, g[1], g[2])
+				for i := 0; i < nSmall; i++ {
+					jobs = append(jobs, job{sc: sc, request: fmt.Sprintf("%s %s", sc.text, randSched(r))})
+				}
+			}
+		}
+		for _, g := range smallCaches {
+			sc := cacheScenario(g[0]+"-rnd", g[1])
+			for i := 0; i < nSmall; i++ {
+				jobs = append(jobs, job{sc: sc, request: fmt.Sprintf("%s %s", sc.text, randSched(r))})
+			}
+		}
+		// ---- random scenarios: n ≤ 8, ≤ 30 items; 2–4 goroutines, 1–2 keys
+		for i := 0; i < nRandW; i++ {
+			sc := randWork(r, 8, 30)
+			jobs = append(jobs, job{sc: sc, request: fmt.Sprintf("%s %s", sc.text, randSched(r))})
+		}
+		for i := 0; i < nRandC; i++ {
+			sc := randCache(r)
+			jobs = append(jobs, job{sc: sc, request: fmt.Sprintf("%s %s", sc.text, randSched(r))})
+		}
+	}
+
+	// ---- run the instrumented driver (several processes; results kept in job order)
+	results := make([]jobResult, len(jobs))
+	workers := runtime.NumCPU()
+	if workers > 8 {
+		workers = 8
+	}
+	if workers > len(jobs) {
+		workers = len(jobs)
+	}
+	var wg sync.WaitGroup
+	var mu sync.Mutex
+	nextJob := 0
+	for w := 0; w < workers; w++ {
+		wg.Add(1)
+		go func() {
+			defer wg.Done()
+			p, err := startShim(b.Bin)
+			if err != nil {
+				mu.Lock()
+				res.Observations = append(res.Observations, "cannot start the instrumented driver: "+err.Error())
+				mu.Unlock()
+				return
+			}
+			defer p.close()
+			for {
+				mu.Lock()
+				i := nextJob
+				nextJob++
+				mu.Unlock()
+				if i >= len(jobs) {
+					return
+				}
+				tr, st, err := p.request(jobs[i].request)
+				results[i] = jobResult{tr, st, err}
+				if err != nil {
+					return
+				}
+			}
+		}()
+	}
+	wg.Wait()
+
+	// ---- analyse, replay in the model, compare
+	seen := map[uint64]bool{}
+	nontrivial := 0
+	dfsStats := map[string][2]int{} // label -> (scenarios, schedules)
+	truncated, sampled := 0, 0
+	const chunk = 20000
+	var pend []*analysis
+	var pendCase []string
+	var pendProp []string
+	flush := func() {
+		if len(pend) == 0 {
+			return
+		}
+		lines := make([]string, len(pend))
+		for i, a := range pend {
+			lines[i] = a.modelLine
+		}
+		outs, err := mdl.Run(model, nil, lines, 0)
+		if err != nil {
+			res.Observations = append(res.Observations, "model driver error: "+err.Error())
+			res.Disagree("<driver>", "", err.Error())
+		} else {
+			for i, a := range pend {
+				if why := checkModel(a, outs[i]); why != "" {
+					res.Disagree(pendCase[i], "trace of the instrumented run ("+a.end+")", why)
+				}
+				if len(res.Samples) < 6 && (i == 0 || i == len(pend)/2 || i == len(pend)-1) {
+					res.Samples = append(res.Samples, map[string]string{"case": pendCase[i], "model": outs[i]})
+				}
+			}
+		}
+		pend, pendCase, pendProp = nil, nil, nil
+	}
+	for i, jb := range jobs {
+		jr := results[i]
+		if jr.err != nil {
+			res.Disagree(jb.request, jr.err.Error(), "")
+			continue
+		}
+		if jb.dfs {
+			st := dfsStats[jb.sc.kind]
+			st[0]++
+			st[1] += len(jr.traces)
+			dfsStats[jb.sc.kind] = st
+			if strings.HasSuffix(jr.status, "truncated") {
+				if jb.exhaustive {
+					truncated++
+					res.Observations = append(res.Observations, "DFS truncated: "+jb.request)
+				} else {
+					sampled++
+				}
+			}
+		}
+		prop := propOf(jb.sc)
+		for _, line := range jr.traces {
+			_, _, choices, _ := parseTrace(line)
+			caseText := jb.sc.text + " " + choices
+			a := analyse(jb.sc, line)
+			res.Evaluations++
+			res.OracleChecked[prop]++
+			if a.badTrace != "" {
+				res.Disagree(caseText, a.badTrace, "")
+				continue
+			}
+			for _, v := range a.violations {
+				res.Violate(prop, caseText, v[1], v[0])
+			}
+			h := hash64(a.modelLine)
+			if !seen[h] {
+				seen[h] = true
+				if a.tasks >= 2 && a.switches >= 2 {
+					nontrivial++
+				}
+				res.Distribution[jb.sc.kind+":"+strings.TrimSuffix(jb.sc.label, "-rnd")]++
+				res.Distribution[fmt.Sprintf("%s:tasks=%d", jb.sc.kind, min(a.tasks, 8))]++
+				res.Distribution[fmt.Sprintf("%s:events<%d", jb.sc.kind, (a.events/50+1)*50)]++
+				res.Distribution[jb.sc.kind+":end="+a.end]++
+			}
+			pend = append(pend, a)
+			pendCase = append(pendCase, caseText)
+			pendProp = append(pendProp, prop)
+			if len(pend) >= chunk {
+				flush()
+			}
+		}
+	}
+	flush()
+	res.DistinctNontrivial = nontrivial
+	res.Rule = "distinct (scenario, event sequence) pairs of the instrumented par package in which at least two tasks take steps and the running task changes at least twice; every trace is replayed in the Lean transition system (each event must be the next operation of that task's program, enabled, with the logged result; the blocked set at every scheduling point and the final state must agree) and checked by the independent trace oracle"
+	for k, st := range dfsStats {
+		res.Extra["dfs_"+k] = map[string]int{"scenarios": st[0], "schedules": st[1]}
+	}
+	res.Extra["dfs_truncated_scenarios"] = truncated
+	res.Extra["dfs_capped_sample_scenarios"] = sampled
+	res.Exhaustive = replay == "" && truncated == 0
+	if tier == "thorough" {
+		res.Extra["exhaustive_spaces"] = []string{
+			"Work: all schedules (scheduler and rand.Intn choices) with at most 3 preemptions for n ≤ 2, 2 for n = 3, 1 for n = 4, over 12 item graphs of ≤ 4 items (empty, single, two, chain, fan-out, diamond, self loop, cycle, duplicate adds, join); plus a capped DFS prefix with 2 preemptions for n = 4",
+			"Cache: all schedules with at most 3 preemptions (2 for 4 goroutines) of 12 programs of 2–4 goroutines over 1–2 keys",
+		}
+	} else {
+		res.Extra["exhaustive_spaces"] = []string{
+			"Work: all schedules (scheduler and rand.Intn choices) with at most 2 preemptions for n ≤ 2 and 1 for n = 3, over 12 item graphs of ≤ 4 items (empty, single, two, chain, fan-out, diamond, self loop, cycle, duplicate adds, join); plus capped DFS prefixes with 2 preemptions for n = 3 and 1 for n = 4",
+			"Cache: all schedules with at most 2 preemptions (1 for 4 goroutines) of 12 programs of 2–4 goroutines over 1–2 keys",
+		}
+	}
+	if replay == "" {
+		smoke(res, r, tier)
+	}
+	return res
+}
+
+func randSched(r *rand.Rand) string {
+	seed := r.Int63n(1 << 40)
+	switch r.Intn(3) {
+	case 0:
+		return strconv.FormatInt(seed, 10)
+	case 1:
+		return fmt.Sprintf("s:%d:%d", seed, 50+r.Intn(45))
+	default:
+		return fmt.Sprintf("s:%d:%d", seed, 90+r.Intn(9))
+	}
+}
+
+// ---------------------------------------------------------------- supporting smoke check: the UNMODIFIED package
+
+// smoke runs the real par.Work / par.Cache (real sync, real goroutines) with GOMAXPROCS varied and
+// checks the same observables.  Supporting evidence only (the schedules are whatever the runtime
+// produces); a watchdog with a very generous bound turns a hang into a finding.
+func smoke(res *corr.Result, r *rand.Rand, tier string) {
+	rounds := 60
+	if tier == "thorough" {
+		rounds = 600
+	}
+	old := runtime.GOMAXPROCS(0)
+	defer runtime.GOMAXPROCS(old)
+	type verdict struct{ prop, class, what, input string }
+	done := make(chan []verdict, 1)
+	seeds := make([]int64, rounds)
+	for i := range seeds {
+		seeds[i] = r.Int63()
+	}
+	go func() {
+		var vs []verdict
+		for i := 0; i < rounds; i++ {
+			rr := rand.New(rand.NewSource(seeds[i]))
+			runtime.GOMAXPROCS([]int{1, 2, 4, 8}[i%4])
+			// Work
+			items := 1 + rr.Intn(200)
+			n := 1 + rr.Intn(16)
+			children := make([][]int, items)
+			for x := range children {
+				for j, k := 0, rr.Intn(4); j < k; j++ {
+					children[x] = append(children[x], rr.Intn(items))
+				}
+			}
+			in := fmt.Sprintf("smoke-work seed=%d items=%d n=%d", seeds[i], items, n)
+			if v := smokeWork(n, items, children, 1+rr.Intn(3)); v != "" {
+				vs = append(vs, verdict{"C09", "smoke-unmodified", v, in})
+			}
+			// Cache
+			g := 2 + rr.Intn(30)
+			keys := 1 + rr.Intn(4)
+			in = fmt.Sprintf("smoke-cache seed=%d goroutines=%d keys=%d", seeds[i], g, keys)
+			if v := smokeCache(g, keys); v != "" {
+				vs = append(vs, verdict{"C10", "smoke-unmodified", v, in})
+			}
+		}
+		done <- vs
+	}()
+	select {
+	case vs := <-done:
+		for _, v := range vs {
+			res.Violate(v.prop, v.input, v.what, v.class)
+		}
+		res.Distribution["smoke:rounds"] = rounds
+		res.OracleChecked["C09"] += rounds
+		res.OracleChecked["C10"] += rounds
+	case <-timeAfter(600):
+		res.Violate("C09", "smoke", "the unmodified par package did not finish the smoke rounds within 10 minutes (hang)", "smoke-hang")
+		res.Violate("C10", "smoke", "the unmodified par package did not finish the smoke rounds within 10 minutes (hang)", "smoke-hang")
+	}
+}
+
+func timeAfter(sec int) <-chan time.Time { return time.After(time.Duration(sec) * time.Second) }
+
+func smokeWork(n, items int, children [][]int, ninit int) string {
+	var w par.Work
+	for i := 0; i < ninit; i++ {
+		w.Add(i % items)
+	}
+	calls := make([]int32, items)
+	var inFlight, maxInFlight, finished int32
+	w.Do(n, func(item any) {
+		x := item.(int)
+		c := atomic.AddInt32(&inFlight, 1)
+		for {
+			m := atomic.LoadInt32(&maxInFlight)
+			if c <= m || atomic.CompareAndSwapInt32(&maxInFlight, m, c) {
+				break
+			}
+		}
+		atomic.AddInt32(&calls[x], 1)
+		for _, ch := range children[x] {
+			w.Add(ch)
+		}
+		runtime.Gosched()
+		atomic.AddInt32(&inFlight, -1)
+		atomic.AddInt32(&finished, 1)
+	})
+	if atomic.LoadInt32(&inFlight) != 0 {
+		return "Do returned while calls of f are in flight"
+	}
+	if int(maxInFlight) > n {
+		return fmt.Sprintf("%d concurrent calls of f with n=%d", maxInFlight, n)
+	}
+	// expected: closure of the initial items
+	seen := make([]bool, items)
+	var todo []int
+	for i := 0; i < ninit; i++ {
+		todo = append(todo, i%items)
+	}
+	for len(todo) > 0 {
+		x := todo[len(todo)-1]
+		todo = todo[:len(todo)-1]
+		if seen[x] {
+			continue
+		}
+		seen[x] = true
+		todo = append(todo, children[x]...)
+	}
+	for x := range seen {
+		want := int32(0)
+		if seen[x] {
+			want = 1
+		}
+		if atomic.LoadInt32(&calls[x]) != want {
+			return fmt.Sprintf("item %d processed %d times, expected %d", x, calls[x], want)
+		}
+	}
+	return ""
+}
+
+func smokeCache(g, keys int) string {
+	var c par.Cache
+	calls := make([]int32, keys)
+	var wg sync.WaitGroup
+	errs := make(chan string, g*keys*2)
+	for i := 0; i < g; i++ {
+		wg.Add(1)
+		go func(i int) {
+			defer wg.Done()
+			for k := 0; k < keys; k++ {
+				key := (k + i) % keys
+				if v := c.Get(key); v != nil && v != fmt.Sprintf("%d#1", key) {
+					errs <- fmt.Sprintf("Get(%d) = %v", key, v)
+				}
+				v := c.Do(key, func() any {
+					n := atomic.AddInt32(&calls[key], 1)
+					runtime.Gosched()
+					return fmt.Sprintf("%d#%d", key, n)
+				})
+				if v != fmt.Sprintf("%d#1", key) {
+					errs <- fmt.Sprintf("Do(%d) = %v", key, v)
+				}
+				if v := c.Get(key); v != fmt.Sprintf("%d#1", key) {
+					errs <- fmt.Sprintf("Get(%d) after Do = %v", key, v)
+				}
+			}
+		}(i)
+	}
+	wg.Wait()
+	close(errs)
+	for e := range errs {
+		return e
+	}
+	for k := range calls {
+		if calls[k] != 1 {
+			return fmt.Sprintf("f invoked %d times for key %d", calls[k], k)
+		}
+	}
+	return ""
 }
